@@ -206,6 +206,11 @@ class C06(Prop):
                 if a1 != want:
                     j.failures.append('query %s: a handler whose data_sources were replaced by files with every figure doubled answers %s, expected %s' % (q, a1, want))
                     break
+        if 'answers_first_vendor' in impl and 'answers_resourced' in impl:
+            for q, a0, a1 in zip(c['queries'], impl['answers_resourced'][0], impl['answers_first_vendor']):
+                if a1 != a0:
+                    j.failures.append('query %s: with a second vendor (every figure doubled) listed after the files as written the handler answers [bid, ask, mid, pair] %s, the first vendor alone %s' % (q, a1, a0))
+                    break
         if 'answers_shared_dir' in impl:
             for q, a0, a1 in zip(c['queries'], impl['answers'], impl['answers_shared_dir']):
                 if a0 != a1:
